@@ -11,7 +11,7 @@ import (
 )
 
 func init() {
-	register("C09", c09Reset, c09Scoped, func(e *Env) { serveLoop(e, "C09") }, c09Pools, c09Ctor, c07Own, c17Fill, c17Slot, c04Slots, c10ChPool, c09Siblings, c17DeepCopy, c17ParseFresh, c11PutEscape)
+	register("C09", c09Reset, c09Scoped, func(e *Env) { serveLoop(e, "C09") }, c09Pools, c09Ctor, c07Own, c17Fill, c17Slot, c04Slots, c10ChPool, c09Siblings, c17DeepCopy, c17ParseFresh, c11PutEscape, c09DstTrunc)
 }
 
 type resetTarget struct {
